@@ -135,6 +135,54 @@ def validate(ddl, nseq=300, seqlen=12, seed=1, verbose=False):
             if cyc: break
             ls = real.execute("SELECT seq FROM sqlite_sequence WHERE name = 'Playlist'").fetchall()
     return nst, nseq, None
+V1_STMTS = [
+    ("UPDATE Crate SET path = ? WHERE id = ?", 'si'), ("DELETE FROM CrateTrackList WHERE crateId = ? AND trackId = ?", 'ii'),
+    ("INSERT INTO CrateTrackList (crateId, trackId) VALUES (?, ?)", 'ii'), ("DELETE FROM CrateTrackList WHERE crateId = ?", 'i'),
+    ("INSERT INTO Crate (id, title, path) VALUES (?, ?, ?)", 'iss'), ("INSERT INTO Crate (title, path) VALUES (?, ?)", 'ss'),
+    ("INSERT INTO CrateParentList (crateOriginId, crateParentId) VALUES (?, ?)", 'ii'),
+    ("INSERT INTO CrateHierarchy (crateId, crateIdChild) SELECT crateId, ? FROM CrateHierarchy WHERE crateIdChild = ? UNION SELECT ? AS crateId, ? AS crateIdChild", 'iiii'),
+    ("UPDATE Crate SET title = ?, path = ? WHERE id = ?", 'ssi'), ("DELETE FROM CrateParentList WHERE crateOriginId = ?", 'i'),
+    ("DELETE FROM CrateHierarchy WHERE crateIdChild = ?", 'i'), ("DELETE FROM Crate WHERE id = ?", 'i'),
+    ("INSERT INTO Track (path, filename) VALUES (?, ?)", 'ss'), ("DELETE FROM Track WHERE id = ?", 'i'),
+]
+V1_READS = ["SELECT id, title, path FROM Crate ORDER BY id", "SELECT crateOriginId, crateParentId FROM CrateParentList", "SELECT crateId, crateIdChild FROM CrateHierarchy",
+            "SELECT crateId, trackId FROM CrateTrackList", "SELECT IFNULL(MAX(id), 0) + 1 FROM Crate", "SELECT id FROM Track ORDER BY id",
+            "SELECT path FROM Crate c JOIN CrateParentList cpl ON c.id = cpl.crateParentId WHERE cpl.crateOriginId = 2 AND cpl.crateOriginId <> cpl.crateParentId",
+            "SELECT cr.id FROM Crate cr JOIN CrateParentList cpl ON (cpl.crateOriginId = cr.id) WHERE cr.title = 'a' AND cpl.crateParentId = 1 ORDER BY cr.id",
+            "SELECT crateOriginId FROM CrateParentList WHERE crateParentId = crateOriginId ORDER BY crateOriginId"]
+def real_db_v1(ddl):
+    c = sqlite3.connect(':memory:', isolation_level=None)
+    c.execute("ATTACH ':memory:' AS music"); c.execute("ATTACH ':memory:' AS perfdata")
+    for s in ddl: c.execute(s)
+    c.set_progress_handler(lambda: 1, 2000000)
+    return c
+def validate_v1(ddl, nseq=200, seqlen=14, seed=1):
+    rnd = random.Random(seed); nst = 0
+    for sq in range(nseq):
+        real = real_db_v1(ddl); mod = ModelDB(ddl); hist = []
+        for step in range(seqlen):
+            sql, shape = rnd.choice(V1_STMTS)
+            p = tuple(rnd.choice([1, 2, 3, 4]) if ch == 'i' else rnd.choice(['a', 'b', 'a;b;', 'a;']) for ch in shape)
+            hist.append((sql, p)); nst += 1
+            try: real.execute(sql, p); rr = 'ok'
+            except sqlite3.IntegrityError: rr = 'constraint'
+            except sqlite3.OperationalError as e: rr = 'error'
+            try: mr = mod.run(sql, p)
+            except models_rel.E.Bug as b: mr = 'bug'
+            mr = {models_sqlite.SQLITE_DONE: 'ok', models_sqlite.SQLITE_CONSTRAINT: 'constraint', models_sqlite.SQLITE_ERROR: 'error'}.get(mr, mr)
+            if rr != mr: return nst, sq, ('status', hist, rr, mr)
+            for rd in V1_READS:
+                a = real.execute(rd).fetchall(); b = mod.run(rd)
+                if 'ORDER BY' not in rd: a = sorted(a, key=repr); b = sorted(b, key=repr)
+                if a != b: return nst, sq, ('contents', hist, rd, a, b)
+    return nst, nseq, None
+if __name__ == '__main__' and len(sys.argv) > 2 and sys.argv[2] == 'v1':
+    for idx in (0, 3, 7, 10, 9):
+        ddl = ddl_for(1, idx)
+        sch = models_rel.Schema(ddl)
+        print(idx, len(ddl), 'statements; tables', len(sch.tables), 'triggers', len(sch.triggers), 'views', len(sch.views), 'view defs', len(sch.view_defs), 'unparsed', sch.unparsed[:2])
+        print(str(validate_v1(ddl, nseq=int(sys.argv[1])))[:1500])
+    sys.exit(0)
 if __name__ == '__main__':
     for idx in (0, 6):
         ddl = ddl_for(2, idx)
